@@ -208,6 +208,15 @@ def all_families():
 # ---------------------------------------------------------------------------
 # hostile / boundary arguments (C09, C13)
 
+def is_duck_number(v):
+    """Not an int / float, but convertible by operator.index() or float():
+    the Python implementation converts through struct / operator and accepts
+    these where the C implementation checks the exact type (finding F15)."""
+    import decimal
+    import fractions
+    return isinstance(v, (Indexable, fractions.Fraction, decimal.Decimal))
+
+
 class Indexable:
     """Has __index__ but is not an int."""
     def __init__(self, n):
@@ -298,6 +307,14 @@ def hostile_palette():
     out += [('str', ''), ('str', 'a'), ('str', 'ab'), ('str', 'abcdef')]
     for n in range(0, 9):
         out.append(('bytes', bytes(range(65, 65 + n))))
+    # bytes-like but not bytes; numbers equal to an int but not ints
+    import decimal
+    import fractions
+    out += [('bytearray', bytearray(b'ab')), ('bytearray', bytearray(b'abcdef')),
+            ('memoryview', memoryview(b'ab')),
+            ('memoryview', memoryview(b'abcdef')),
+            ('fraction', fractions.Fraction(7)),
+            ('decimal', decimal.Decimal(7)), ('float', 7.0), ('int', 7)]
     out += [('none', None), ('tuple', ()), ('tuple', (1, 2)),
             ('list', [1]), ('dict', {}), ('plain', Plain()),
             ('index', Indexable(3)), ('ordered', Ordered(3)),
